@@ -54,7 +54,7 @@ func Single(c *mc.Ctx, desc string) string {
 	if err := json.Unmarshal([]byte(desc), &d); err != nil || d.Root == nil {
 		return "bad desc"
 	}
-	st := Search(d.Root, Cfg{Depth: d.Depth, Events: d.Events, Regimes: d.Regimes, ChoiceBound: d.Bound})
+	st := Search(d.Root, Cfg{Ctx: c, Depth: d.Depth, Events: d.Events, Regimes: d.Regimes, ChoiceBound: d.Bound})
 	return fmt.Sprintf("search of the root returned: %d states", st.States)
 }
 
